@@ -163,15 +163,17 @@ PopsDefinedIffReactive == pc = "fdone" =>
 (* Checked here for some c on every chain in scope and in LineFlux.tla for c = 2^-30 (over *)
 (* BigNat); the driver replays every printed case also with populations 2^-30 . pi, where  *)
 (* every flux is below 1e-8 (a power of two scales binary floating point exactly).         *)
-ScaleSet == {<<1, 2>>, <<3, 1>>, <<1, 64>>}
+ScaleSet == {<<3, 64>>}
 FluxWith(p, i, j) == IF i = j THEN RZero ELSE RMul(RMul(T(i, j), RMul(p[i], qm[i])), q[j])
 PopulationScaling == pc = "fdone" => \A cc \in ScaleSet :
-  LET p == V([i \in Idx |-> RMul(cc, pi[i])])
-      d == V([i \in Idx |-> RMul(p[i], RMul(q[i], qm[i]))])
+  LET p  == V([i \in Idx |-> RMul(cc, pi[i])])
+      sf == V([i \in Idx |-> V([j \in Idx |-> FluxWith(p, i, j)])])
+      d  == V([i \in Idx |-> RMul(p[i], RMul(q[i], qm[i]))])
+      td == RSum(d)
   IN /\ \A i, j \in Idx :
-          /\ FluxWith(p, i, j) = RMul(cc, fl[i][j])
-          /\ RMax(RZero, RSub(FluxWith(p, i, j), FluxWith(p, j, i))) = RMul(cc, net[i][j])
-     /\ (rp # None => \A i \in Idx : RDiv(d[i], RSum(d)) = rp[i])
+          /\ sf[i][j] = RMul(cc, fl[i][j])
+          /\ RMax(RZero, RSub(sf[i][j], sf[j][i])) = RMul(cc, net[i][j])
+     /\ (rp # None => \A i \in Idx : RDiv(d[i], td) = rp[i])
 
 FRatOK == /\ (fl # None => \A i, j \in Idx : Safe(fl[i][j]))
           /\ (net # None => \A i, j \in Idx : Safe(net[i][j]))
